@@ -236,7 +236,23 @@ def deep_chains(ctx):
             ctx.violation("deep-chain:shortcut-left-unlowered", f"chain of {n} operators: the transformer returned normally but left {left} un-lowered", {"deep": n})
 
 
+def register_namesakes(ctx):
+    """history: before this shard lowers anything, functions NAMED like the shortcuts are registered for use in queries, with a
+    processor (as a user library does for its own Sum / Count): the lowering is unconditional all the same"""
+    from func_adl import func_adl_callable
+
+    def proc(s, a):
+        return s, a
+
+    ns = {"func_adl_callable": func_adl_callable, "proc": proc}
+    for name in ("Sum", "Count", "Max", "Min"):
+        exec(f"@func_adl_callable(proc)\ndef {name}(x: float) -> float: ...\n", ns)
+    ctx.count("shortcut-names-registered-as-functions-with-a-processor", 4)
+
+
 def shard_main(ctx):
+    if ctx.shard % 3 == 2:
+        register_namesakes(ctx)
     if ctx.shard in (0, 1, 3):
         deep_chains(ctx)
     if ctx.shard == 0:
